@@ -11,11 +11,19 @@ package c17
 import (
 	"encoding/json"
 	"fmt"
+	"io"
 	"os"
 	"sort"
 	"strings"
+	"sync"
 	"testing"
 	"time"
+
+	"github.com/bbva/qed/balloon/hyper"
+	"github.com/bbva/qed/consensus"
+	"github.com/bbva/qed/storage"
+	"github.com/bbva/qed/storage/bplus"
+	"github.com/hashicorp/raft"
 
 	"github.com/bbva/qed/crypto/hashing"
 	"github.com/bbva/qed/crypto/sign"
@@ -34,15 +42,30 @@ type collector struct {
 func (c *collector) Subscribe(id int, ch <-chan *gossip.Message) { c.ch = ch }
 
 type scenario struct {
-	K      int    `json:"snapshots"`
-	Groups []int  `json:"groups"` // composition of K: snapshots pushed together
-	Gaps   string `json:"gaps"`   // per gap between groups: d = wait until taken off the channel, f = wait until everything pushed so far was published (time passes)
-	Bound  int    `json:"bound"`
+	// Handoff: instead of a feeder writing to the channel, a client calls the real RaftNode.AddBulk with
+	// bulks of these sizes on a node whose snapshots channel has ChanCap slots (the hand-off from the
+	// insertion path to the sender is part of the property)
+	Handoff []int  `json:"handoffBulks,omitempty"`
+	ChanCap int    `json:"channelCapacity,omitempty"`
+	K       int    `json:"snapshots"`
+	Groups  []int  `json:"groups"` // composition of K: snapshots pushed together
+	Gaps    string `json:"gaps"`   // per gap between groups: d = wait until taken off the channel, f = wait until everything pushed so far was published (time passes)
+	Bound   int    `json:"bound"`
 }
 
 func (s scenario) String() string {
+	if s.Handoff != nil {
+		return fmt.Sprintf("hand-off: AddBulk%v, channel of %d", s.Handoff, s.ChanCap)
+	}
 	return fmt.Sprintf("k=%d groups=%v gaps=%q", s.K, s.Groups, s.Gaps)
 }
+
+// a ManagedStore over the in-memory B+ store for the bare node of the hand-off scenarios
+type mstore struct{ *bplus.BPlusTreeStore }
+
+func (mstore) FetchSnapshot(w io.WriteCloser, a, b uint64, v storage.ValidateF) error { return nil }
+func (mstore) LoadSnapshot(io.ReadCloser) error                                       { return nil }
+func (mstore) LastWALSequenceNumber() uint64                                          { return 0 }
 
 const batchSize = 2
 
@@ -59,7 +82,24 @@ func body(s scenario) func(x *sx.Exec) {
 		var snd *server.Sender
 		col := &collector{}
 		ch := make(chan *protocol.Snapshot, 64)
+		var node *consensus.RaftNode
+		want := map[uint64]*protocol.Snapshot{} // hand-off: what AddBulk acknowledged, by version
+		if s.Handoff != nil {
+			ch = make(chan *protocol.Snapshot, s.ChanCap)
+		}
 		sx.Setup(func() {
+			if s.Handoff != nil {
+				var err error
+				node, err = consensus.VerifNewBareNode("n0", mstore{bplus.NewBPlusTreeStore()}, getCache(), ch)
+				if err != nil {
+					panic(err)
+				}
+				idx := uint64(0)
+				node.VerifSetHooks(&consensus.VerifHooks{Propose: func(data []byte) (interface{}, error) {
+					idx++
+					return node.Apply(&raft.Log{Index: idx, Term: 1, Type: raft.LogCommand, Data: data}), nil
+				}})
+			}
 			conf := gossip.DefaultConfig()
 			conf.NodeName, conf.Role, conf.BindAddr = "verif-sender", "server", "127.0.0.1:12398"
 			var err error
@@ -95,6 +135,24 @@ func body(s scenario) func(x *sx.Exec) {
 		})
 		snd.Start(ch)
 		pushed := 0
+		if s.Handoff != nil {
+			for _, k := range s.Handoff {
+				var evs [][]byte
+				for j := 0; j < k; j++ {
+					evs = append(evs, []byte(fmt.Sprintf("hand-off-event-%d", pushed+j)))
+				}
+				snaps, err := node.AddBulk(evs)
+				if err != nil || len(snaps) != k {
+					x.Fail("an insertion fails while its snapshots are handed to the sender", fmt.Sprint(err))
+					break
+				}
+				for _, sn := range snaps {
+					ps := protocol.Snapshot(*sn)
+					want[ps.Version] = &ps
+				}
+				pushed += k
+			}
+		}
 		for gi, g := range s.Groups {
 			for j := 0; j < g; j++ {
 				sx.WaitSend(ch)
@@ -115,6 +173,10 @@ func body(s scenario) func(x *sx.Exec) {
 		sx.Yield("one more look")
 		snd.Stop()
 		// verdict
+		wantH := want
+		if node != nil {
+			sx.Setup(func() { node.VerifCloseBare() })
+		}
 		count := map[uint64]int{}
 		var shape []string
 		for _, b := range batches {
@@ -131,10 +193,13 @@ func body(s scenario) func(x *sx.Exec) {
 				vs = append(vs, fmt.Sprint(ss.Snapshot.Version))
 				ok, _ := signer.Verify([]byte(fmt.Sprintf("%v", ss.Snapshot)), ss.Signature)
 				want := snapshot(int(ss.Snapshot.Version))
+				if s.Handoff != nil {
+					want = wantByVersion(wantH, ss.Snapshot.Version)
+				}
 				if !ok {
 					x.Fail("a published snapshot carries a signature that does not verify under the server's key", ss.Snapshot.Version)
 				}
-				if fmt.Sprint(*want) != fmt.Sprint(*ss.Snapshot) {
+				if want == nil || fmt.Sprint(*want) != fmt.Sprint(*ss.Snapshot) {
 					x.Fail("a published snapshot differs from the one that was issued", ss.Snapshot.Version)
 				}
 			}
@@ -151,6 +216,32 @@ func body(s scenario) func(x *sx.Exec) {
 			}
 		}
 	}
+}
+
+func wantByVersion(m map[uint64]*protocol.Snapshot, v uint64) *protocol.Snapshot { return m[v] }
+
+var (
+	poolMu sync.Mutex
+	pool   []*hyper.BatchCache
+)
+
+// hand-off scenarios never recycle a used cache: a fresh one per execution would cost a gigabyte each,
+// so one cache per process is reset between executions (the events are the same in every execution)
+func getCache() *hyper.BatchCache {
+	poolMu.Lock()
+	defer poolMu.Unlock()
+	if len(pool) == 0 {
+		pool = append(pool, hyper.NewBatchCache(hyper.DefaultBatchLevels))
+	}
+	c := pool[0]
+	var keys [][]byte
+	for i := 0; i < 8; i++ {
+		keys = append(keys, hashing.NewSha256Hasher().Do([]byte(fmt.Sprintf("hand-off-event-%d", i))))
+	}
+	if !c.VerifReset(keys) {
+		panic("c17: the recycled hyper cache is not empty")
+	}
+	return c
 }
 
 func compositions(n int) [][]int { return hx.Compositions(n) }
@@ -176,6 +267,19 @@ func scenarios(thorough bool) []scenario {
 				b := bound
 				out = append(out, scenario{K: k, Groups: comp, Gaps: string(g), Bound: b})
 			}
+		}
+	}
+	// the hand-off from the insertion path (real RaftNode.AddBulk on a bare node) into a SMALL channel
+	for _, hb := range [][]int{{2}, {3}, {1, 2}, {2, 2}} {
+		for _, cc := range []int{1, 2} {
+			k := 0
+			for _, b := range hb {
+				k += b
+			}
+			if !thorough && k > 3 && cc == 2 {
+				continue
+			}
+			out = append(out, scenario{Handoff: hb, ChanCap: cc, K: k, Bound: bound})
 		}
 	}
 	return out
